@@ -172,6 +172,8 @@ func (m *Machine) buildSigType(c *frame, n *sigNode) value {
 			m.abort("oracle returned basic type with unknown signature %q", n.Sig)
 		}
 		return callF(ctor)
+	case "nil":
+		return ifaceV{}
 	case "list":
 		return toIface(callF("NewListType", m.buildSigType(c, n.Elems[0])), "NewListType")
 	case "map":
